@@ -28,6 +28,10 @@ THEOREMS = [
     "PorepyVerif.C34.intersect_spec",
     "PorepyVerif.C34.intersect_unique_match",
     "PorepyVerif.C34.anchor_rule_splits_cluster",
+    "PorepyVerif.C34.uniquify_eq_greedy_within_norm_clusters",
+    "PorepyVerif.C34.anchor_eq_chain_iff",
+    "PorepyVerif.C34.uniquify_anchor_eq_chain",
+    "PorepyVerif.C34.anchor_correct_of_agree",
 ]
 LEAN_MODULES = ["PorepyVerif.C34.Props"]
 AUDIT = "PorepyVerif/C34/Audit.lean"
@@ -37,9 +41,9 @@ KEY_F4 = "uniquify-norm-anchor-splits-cluster"
 RULE = ("four case kinds. uniquify (45%) / uniquify_points (15%): 0-9 clusters of 1-4 points in dimension 1-3, cluster diameter < 0.3*tol, "
         "points of different clusters > 3*tol apart (checked in exact arithmetic, rejected otherwise), cluster centres on spheres whose "
         "radii differ by a few tol (norm pre-clustering boundaries are straddled on purpose, incl. the F4 pattern), exact duplicates, shuffled order, "
-        "tol from 1e-9..0.3, also integer grids with many repeats; uniquify_points adds 0-8 edges with 0-2 tag rows. "
+        "tol from 1e-10..0.3, also integer grids with many repeats; a stratum (15%) of distinct clusters with exactly equal norms at distance between tol and sqrt(tol), tol in 1e-3..1e-10;  uniquify_points adds 0-8 edges with 0-2 tag rows. "
         "ismember (25%): integer arrays with 1-3 rows (or 1-d), 0-9 columns from a small range so that twins, permuted twins and repeated columns in b are frequent, both sort modes. "
-        "intersect (15%): two point sets drawn from common centres (same margins), 0-8 points each, repeated points in b. "
+        "intersect (15%): two point sets drawn from common centres (same margins), 0-8 points each, repeated points inside a and inside b (multiplicities). "
         "non-trivial = at least two points/columns and at least one merge/match; distinct = distinct cases")
 TRUSTED = [
     "modelled, not verified: np.argsort on the float norms (model: stable insertion sort on exact squared norms; under the separation hypothesis the result does not depend on tie order), "
@@ -160,9 +164,54 @@ def _clustered(rng, dim, tol, nclus, tier, f4=False):
     return [], []
 
 
+SQRT_BAND_TOLS = [1e-3, 1e-4, 1e-5, 1e-6, 1e-8, 1e-10]
+
+
+def _sqrt_band(rng, tier):
+    """distinct clusters with EQUAL norms whose distance lies between tol and sqrt(tol) (stratified over tol):
+    a comparison of the squared distance with tol instead of tol**2 would merge them"""
+    tol = rng.choice(SQRT_BAND_TOLS)
+    dim = rng.choice([1, 2, 3])
+    for _ in range(50):
+        lo, hi = math.log(3.5 * tol), math.log(0.9 * math.sqrt(tol))
+        d = math.exp(rng.uniform(lo, hi))  # log-uniform in (3.5 tol, 0.9 sqrt(tol))
+        if dim == 1:
+            centres = [[d / 2], [-d / 2]]  # norms equal exactly
+        else:
+            R = rng.choice([0.0, 1.0, 1.0, 3.0])
+            ax = rng.randrange(1, dim)
+            c1, c2 = [R] + [0.0] * (dim - 1), [R] + [0.0] * (dim - 1)
+            c1[ax], c2[ax] = d / 2, -d / 2  # mirror images: norms equal exactly
+            centres = [c1, c2]
+            if rng.random() < 0.4:  # a third cluster on the same sphere, mirrored in the first coordinate or another axis
+                c3 = list(c1)
+                if R > 0:
+                    c3[0] = -R
+                else:
+                    c3 = [d / 2] + [0.0] * (dim - 1)
+                centres.append(c3)
+        cols, labels = [], []
+        for k, c in enumerate(centres):
+            for m_ in range(rng.choice([1, 1, 2, 3])):
+                if m_ == 0 or rng.random() < 0.3:  # the first member sits exactly on the centre: norms of the clusters are EQUAL
+                    cols.append(list(c))
+                else:
+                    u = _direction(rng, dim)
+                    s_ = rng.uniform(0, 0.14) * tol
+                    cols.append([a + s_ * b for a, b in zip(c, u)])
+                labels.append(k)
+        if margins_ok(cols, tol, labels):
+            perm = list(range(len(cols)))
+            rng.shuffle(perm)
+            return dim, tol, [cols[i] for i in perm]
+    return dim, tol, []
+
+
 def _gen_points(rng, tier):
     dim = rng.choice([1, 2, 2, 3])
     mode = rng.random()
+    if 0.15 <= mode < 0.30:
+        return _sqrt_band(rng, tier)
     if mode < 0.15:  # integer grid, many repeats (docstring: equals np.unique for tol < 0.5)
         tol = rng.choice([0.3, 0.25, 1e-5, 1e-1])
         n = rng.randint(0, 12 if tier == "quick" else 30)
@@ -221,6 +270,10 @@ def gen_case(rng, tier):
         else:
             a.append(cols[i])
             b.append(cols[i])
+    for lst in (a, b):  # repeated points inside one set (multiplicities)
+        if lst and rng.random() < 0.35:
+            for _ in range(rng.randint(1, 3)):
+                lst.insert(rng.randrange(len(lst) + 1), list(rng.choice(lst)))
     if rng.random() < 0.1:
         a = []
     if rng.random() < 0.1:
@@ -284,7 +337,7 @@ def impl_run(case):
 def model_ops(case):
     k = case["kind"]
     if k == "uniquify":
-        return [{"op": "uniquify", "tol": case["tol"], "points": case["points"]}]
+        return [{"op": "uniquify", "tol": case["tol"], "points": case["points"], "with_anchor": True}]
     if k == "uniquify_points":
         return [{"op": "uniquify_points", "tol": case["tol"], "points": case["points"], "edges": case["edges"]}]
     if k == "ismember":
@@ -293,7 +346,20 @@ def model_ops(case):
 
 
 def model_decode(outs, case):
-    return outs[0]
+    o = outs[0]
+    if case["kind"] == "uniquify" and isinstance(o, dict) and "anchor" in o:
+        # the oracle labels F4 cases with a python port of the anchor algorithm; tie that port to the Lean model
+        # (anchor result and the decidable agreement condition) on EVERY uniquify case, F4 cases included
+        cols = cols_of(case)
+        n2o, o2n, agree = _anchor_port(cols, Fraction(case["tol"]))
+        want = {"pts": [[frac(x) for x in cols[i]] for i in n2o], "new_2_old": n2o, "old_2_new": o2n}
+        d = deep_compare(want, o["anchor"])
+        if d or bool(o["agree"]) != agree:
+            raise RuntimeError(f"python port of the anchor rule disagrees with the Lean model: {d or 'agreement flag'} on {case}")
+        if agree and o["anchor"] != {k: o[k] for k in ("pts", "new_2_old", "old_2_new")}:
+            raise RuntimeError("Lean model: rules agree but results differ (contradicts uniquify_anchor_eq_chain)")
+        o = {k: o[k] for k in ("pts", "new_2_old", "old_2_new")}
+    return o
 
 
 def compare(impl, model, case):
@@ -348,6 +414,66 @@ def _anchor_clusters(p, tol):
     return cid, norms
 
 
+def _norm_far(t2, a, b):
+    """abs(sqrt(a) - sqrt(b)) > tol on exact squared norms (the rational test of the model)"""
+    lo, hi = min(a, b), max(a, b)
+    u = hi - lo - t2
+    return u > 0 and u * u > 4 * t2 * lo
+
+
+def _greedy_groups(cols, t2, groups):
+    """greedy first-representative clustering inside each group (order given), then reordering by first occurrence"""
+    n = len(cols)
+    slots, A = [], {}
+    for g in groups:
+        off, S = len(slots), []
+        for i in g:
+            k = next((k for k, s_ in enumerate(S) if d2(cols[i], cols[s_]) < t2), None)
+            if k is None:
+                S.append(i)
+                A[i] = off + len(S) - 1
+            else:
+                A[i] = off + k
+                if i < S[k]:
+                    S[k] = i
+        slots += S
+    ordering = sorted(range(len(slots)), key=lambda k: slots[k])
+    rank = {k: r for r, k in enumerate(ordering)}
+    return [slots[k] for k in ordering], [rank[A[i]] for i in range(n)]
+
+
+def _anchor_port(cols, tol):
+    """what the current code computes, in exact arithmetic (theorem uniquify_eq_greedy_within_norm_clusters, rule = anchor):
+    returns (new_2_old, old_2_new, agree) with agree = the decidable condition `anchorAgrees` of the model"""
+    n = len(cols)
+    if n == 0:
+        return [], [], True
+    t2 = F(tol) ** 2
+    nr = [sum(F(x) ** 2 for x in c) for c in cols]
+    order = sorted(range(n), key=lambda i: nr[i])  # stable
+    groups, ra, rp, agree = [[]], nr[order[0]], nr[order[0]], True
+    for i in order:
+        fa, fp = _norm_far(t2, ra, nr[i]), _norm_far(t2, rp, nr[i])
+        agree = agree and fa == fp
+        if fa:
+            groups.append([])
+            ra = nr[i]
+        rp = nr[i]
+        groups[-1].append(i)
+    n2o, o2n = _greedy_groups(cols, t2, groups)
+    return n2o, o2n, agree
+
+
+def _anchor_port_float(cols, p, tol):
+    """the same algorithm with the norm clusters evaluated in binary64 exactly as the code does (knife-edge safe)"""
+    cid, norms = _anchor_clusters(p, tol)
+    order = [int(i) for i in np.argsort(norms, kind="stable")]
+    groups = {}
+    for i in order:
+        groups.setdefault(cid[i], []).append(i)
+    return _greedy_groups(cols, F(tol) ** 2, [groups[k] for k in sorted(groups)])
+
+
 def _uniq_oracle(case):
     """returns (failure | None, expected firsts, expected old_2_new, real o2n)"""
     cols = cols_of(case)
@@ -363,24 +489,19 @@ def _uniq_oracle(case):
     ok = (n2o == firsts and o2n == pos and up.shape == (case["dim"], len(firsts)) and got_pts == [[F(x) for x in cols[i]] for i in firsts])
     if ok:
         return None, firsts, pos, o2n
-    # wrong result. Is it exactly the recorded mechanism (F4)?
+    # wrong result. Is it exactly what the anchor rule computes (finding F4)?  Classified by the characterisation
+    # of the model: greedy clustering within each ANCHOR norm cluster; by theorem uniquify_anchor_eq_chain this
+    # can differ from the correct result only where the two rules take different decisions.
     if n > 0 and len(o2n) == n:
-        cid, norms = _anchor_clusters(p, tol)
-        refined = {}
-        lab2 = []
-        for i in range(n):
-            lab2.append(refined.setdefault((lab[i], cid[i]), len(refined)))
-        f2, pos2 = _expected_from_labels(lab2)
-        split_pairs = [(i, j) for i in range(n) for j in range(i) if lab[i] == lab[j] and cid[i] != cid[j]]
-        explained = bool(split_pairs) and n2o == f2 and o2n == pos2 and got_pts == [[F(x) for x in cols[i]] for i in f2]
+        a_n2o, a_o2n, agree = _anchor_port(cols, Fraction(case["tol"]))
+        f_n2o, f_o2n = _anchor_port_float(cols, p, tol)
+        if agree and (a_n2o, a_o2n) != (firsts, pos):
+            raise RuntimeError("anchor port differs from brute force although the rules agree (contradicts the theorems)")
+        explained = any((n2o, o2n) == r and got_pts == [[F(x) for x in cols[i]] for i in r[0]]
+                        for r in ((a_n2o, a_o2n), (f_n2o, f_o2n)) if r != (firsts, pos))
         if explained:
-            # literal statement of the mechanism for every pair that should have been merged
-            for i, j in split_pairs:
-                n1, n2 = sorted((norms[i], norms[j]))
-                if not any(norms[k] <= n1 and abs(norms[k] - n1) <= tol < abs(norms[k] - n2) and lab[k] != lab[i] for k in range(n)):
-                    explained = False
-        if explained:
-            i, j = split_pairs[0]
+            cid, norms = _anchor_clusters(p, tol)
+            i, j = next((i, j) for i in range(n) for j in range(i) if lab[i] == lab[j] and o2n[i] != o2n[j])
             return ({"what": f"uniquify_point_set(tol={tol}) returns {len(n2o)} unique points for {len(firsts)} clusters: points {j} and {i} are {math.sqrt(float(d2(cols[i], cols[j]))):.3g} apart "
                              f"but land in different norm clusters because the cluster is anchored on the smaller norm of a far-away point", "key": KEY_F4}, firsts, pos, o2n)
     what = (f"uniquify_point_set(tol={tol}) on {n} points: new_2_old={n2o} expected {firsts}; old_2_new={o2n} expected {pos}"
@@ -484,6 +605,16 @@ def shrink_candidates(case):
                 yield dict(case, **{name: case[name][:i] + case[name][i + 1:]})
 
 
+def _is_sqrt_band(c, t):
+    """two points of different clusters with equal squared norms at a distance in (tol, sqrt(tol))"""
+    if Fraction(c["tol"]) != Fraction(t):
+        return False
+    cols = cols_of(c)
+    nr = [sum(F(x) ** 2 for x in col) for col in cols]
+    t2 = F(t) ** 2
+    return any(nr[i] == nr[j] and t2 < d2(cols[i], cols[j]) < F(t) for i in range(len(cols)) for j in range(i))
+
+
 def stats(cases, impl_outs):
     kinds = {}
     for c in cases:
@@ -506,4 +637,7 @@ def stats(cases, impl_outs):
     return {"kinds": kinds, "point_set_sizes": sizes, "dims": {str(d): sum(1 for c in cases if c.get("dim") == d) for d in (1, 2, 3)},
             "norm_cluster_mixes_true_clusters": straddle, "true_cluster_split_by_anchor_rule(F4 pattern)": f4,
             "ismember_sort": sum(1 for c in cases if c["kind"] == "ismember" and c["sort"]), "ismember_1d": sum(1 for c in cases if c["kind"] == "ismember" and c["ndim1"]),
+            "sqrt_band_equal_norm_cases_by_tol": {str(t): sum(1 for c in uq if _is_sqrt_band(c, t)) for t in SQRT_BAND_TOLS},
+            "intersect_dups_inside_a": sum(1 for c in cases if c["kind"] == "intersect" and len({tuple(x) for x in c["a"]}) < len(c["a"])),
+            "intersect_dups_inside_b": sum(1 for c in cases if c["kind"] == "intersect" and len({tuple(x) for x in c["b"]}) < len(c["b"])),
             "impl_errors": sum(1 for o in impl_outs if isinstance(o, dict) and "err" in o)}
